@@ -430,7 +430,36 @@ theorem full_span_is_buffer_independent (buf : Bytes) (off : Nat) (span : List (
   rw [← hlen]
   exact writeAt_take buf off _ (by rw [hlen]; exact hfit)
 
-theorem library_writes_all_on_sample : SdnsVerif.Gen.C15.lib_writesall_violations = 0 := by decide
+/-- **The assumption is discharged for the admitted set by the refusal**: if
+admission lets through only records whose primitive writes every byte
+(`AdmitsOnlyFullWriters` — what `writesItsIPv4` in `admissibleRR` is there for),
+then every ADMITTED record lands in the pooled buffer exactly as in a fresh
+one, whatever the buffer held. -/
+theorem admitted_records_are_buffer_independent {β : Type} (ml : MaskedLib β) (h : AdmitsOnlyFullWriters ml)
+    (o : Obj β) (ha : ml.adm o = true) (buf : Bytes) (off : Nat) (hfit : off + (ml.span o).length ≤ buf.length) :
+    (writeMasked buf off (ml.span o)).take (off + (ml.span o).length) = buf.take off ++ spanInFresh (ml.span o) :=
+  full_span_is_buffer_independent buf off _ (h o ha) hfit
+
+/-- **Facts from the tree:** (a) on the sampled records that the compiled
+`admissibleRR` ADMITS (profile `skipwrite` included in the sample) no library
+primitive left a byte unwritten; (b) the compiled `admissibleRR` refuses the
+four byte-skipping shapes (`*dns.A` / `L32` with a 16-byte non-IPv4 address,
+`IPSECKEY` / `AMTRELAY` with an IPv4-typed gateway holding one) and admits
+their harmless look-alikes (IPv4-mapped, 4-byte, empty, IPv6-typed gateway). -/
+theorem library_writes_all_on_admitted_sample :
+    SdnsVerif.Gen.C15.lib_writesall_violations = 0 ∧
+    SdnsVerif.Gen.C15.admission_of_skipwriters = [0, 1, 1, 1, 0, 1, 0, 1, 0, 1] := by decide
+
+-- a library whose A-record primitive skips its address bytes, with and without the refusal
+example : AdmitsOnlyFullWriters ({ adm := fun o => o.rest, span := fun o => if o.rest then [some 1, some 2] else [none, none] } : MaskedLib Bool) := by
+  intro o ha x hx
+  have hr : o.rest = true := ha
+  simp only [hr, if_true, List.mem_cons, List.not_mem_nil, or_false] at hx
+  rcases hx with rfl | rfl <;> rfl
+example : ¬ AdmitsOnlyFullWriters ({ adm := fun _ => true, span := fun _ => [none] } : MaskedLib Unit) := by
+  intro h
+  have := h { isOPT := false, hdr := { rrtype := 1, ttl := 0, rdlength := 0 }, rest := () } rfl none (by simp)
+  cases this
 
 -- a 4-byte span the primitive accounts for but does not write (an A record holding a non-IPv4 16-byte address):
 -- the pooled buffer keeps the previous pack's bytes there, a fresh buffer shows zeroes
